@@ -1,19 +1,30 @@
 package main
 
-// Shared-state facts, computed over the SSA form of the module:
+// Shared-state facts, computed over the SSA form of the module. They are stated through *roles* and
+// *types*, never through the names of unexported types, fields or functions, so that renaming any
+// of those changes nothing:
 //
-//   evalWrites        every store, map update, append or copy, in any function of the module
-//                     reachable from (*evaluator).Evaluate, whose target is not memory allocated by
-//                     that same function — described by the type and field written, not by the
-//                     function it happens in. This is the complete write set of one evaluation
-//                     (calls into other modules are listed separately, not analysed).
-//   evalDynamicCalls  the interface methods and named function values an evaluation invokes: the
-//                     channels through which it can affect, or be affected by, anything outside
-//                     (data provider, big-segment store, logger, prerequisite event recorder).
-//   evaluatorWrites   every function of the module that stores into a field of the shared evaluator
-//                     object (construction only), and every store to a package-level variable.
-//   packageVars, stateFields: the package-level variables and the fields of the evaluator, of the
-//                     per-call scope and of the per-call stack.
+//   ‹evaluator›  the concrete struct behind the value NewEvaluatorWithOptions returns
+//   ‹scope›      the struct of the evaluation package that holds a *‹evaluator› (the per-call scope)
+//   ‹stack›      the struct of the evaluation package whose fields are all []string (the chains)
+//
+//   evalSharedWrites   every store / map update / append / copy / delete, in any function of the
+//                      module reachable from (*‹evaluator›).Evaluate, that goes into memory of a
+//                      *shared* type — ‹evaluator›, the data model (FeatureFlag, Segment and every
+//                      module type reachable from them through fields), a package-level variable —
+//                      or through a parameter whose origin cannot be classified. Expected: none.
+//   evalPrivateWrites  the remaining writes of an evaluation that are not into memory allocated by
+//                      the writing function itself: per-call objects handed to helper functions,
+//                      described by role and by the *type* of the field written. This is the
+//                      complete mutable state of one evaluation (model: St.cache, St.status, the
+//                      immutable chains; plus the scratch buffers of bucketing and time parsing).
+//   evalDynamicCalls   the interface methods and named function values an evaluation invokes: the
+//                      channels through which it can affect, or be affected by, anything outside.
+//   evaluatorWrites    every function of the module that stores into ‹evaluator› (expected: the
+//                      apply methods of the EvaluatorOption implementations, during construction).
+//   globalWrites       every function of the module that writes a package-level variable, or memory
+//                      reached from one, outside package initialisation. Expected: none.
+//   evaluatorFieldTypes, scopeFieldTypes, stackFieldTypes: the field types of the three structs.
 
 import (
 	"fmt"
@@ -22,7 +33,6 @@ import (
 	"sort"
 	"strings"
 
-	"golang.org/x/tools/go/callgraph"
 	"golang.org/x/tools/go/callgraph/cha"
 	"golang.org/x/tools/go/ssa"
 )
@@ -82,12 +92,177 @@ func (w *world) method(pkgPath, typeName, method string) *ssa.Function {
 	return nil
 }
 
-// reachableFromEvaluate: module functions reachable from (*evaluator).Evaluate in the CHA call graph
-// (static calls, plus every module method that could be the target of an interface call).
+// ---------- roles ----------
+
+type roles struct {
+	evaluator, scope, stack *types.Named
+	shared                  map[*types.Named]bool
+}
+
+func derefNamed(t types.Type) *types.Named {
+	for {
+		switch u := t.(type) {
+		case *types.Pointer:
+			t = u.Elem()
+			continue
+		case *types.Named:
+			return u
+		}
+		return nil
+	}
+}
+
+func (w *world) findRoles() *roles {
+	if w.rolesCache != nil {
+		return w.rolesCache
+	}
+	r := &roles{shared: map[*types.Named]bool{}}
+	// ‹evaluator›: the struct allocated and returned (as an interface) by NewEvaluatorWithOptions
+	sp := w.spkgs[w.root.PkgPath]
+	ctor := sp.Func("NewEvaluatorWithOptions")
+	if ctor == nil {
+		failf("NewEvaluatorWithOptions not found")
+	}
+	for _, b := range ctor.Blocks {
+		for _, ins := range b.Instrs {
+			if mi, ok := ins.(*ssa.MakeInterface); ok {
+				if n := derefNamed(mi.X.Type()); n != nil && n.Obj().Pkg() == w.root.Types {
+					if _, isStruct := n.Underlying().(*types.Struct); isStruct {
+						r.evaluator = n
+					}
+				}
+			}
+		}
+	}
+	if r.evaluator == nil {
+		failf("cannot identify the evaluator struct (what NewEvaluatorWithOptions returns)")
+	}
+	scope := w.root.Types.Scope()
+	for _, name := range scope.Names() {
+		tn, ok := scope.Lookup(name).(*types.TypeName)
+		if !ok || tn.IsAlias() {
+			continue
+		}
+		n, ok := tn.Type().(*types.Named)
+		if !ok {
+			continue
+		}
+		st, ok := n.Underlying().(*types.Struct)
+		if !ok || st.NumFields() == 0 || n == r.evaluator {
+			continue
+		}
+		allStrSlices, holdsEvaluator := true, false
+		for i := 0; i < st.NumFields(); i++ {
+			ft := st.Field(i).Type()
+			if typeStr(ft) != "[]string" {
+				allStrSlices = false
+			}
+			if p, ok := ft.(*types.Pointer); ok && p.Elem() == types.Type(r.evaluator) {
+				holdsEvaluator = true
+			}
+		}
+		if holdsEvaluator {
+			if r.scope != nil {
+				failf("two structs hold a pointer to the evaluator: %s and %s", r.scope.Obj().Name(), name)
+			}
+			r.scope = n
+		}
+		if allStrSlices && !tn.Exported() {
+			if r.stack != nil {
+				failf("two candidate chain structs: %s and %s", r.stack.Obj().Name(), name)
+			}
+			r.stack = n
+		}
+	}
+	if r.scope == nil {
+		failf("cannot identify the per-call scope struct (the one holding a pointer to the evaluator)")
+	}
+	if r.stack == nil {
+		failf("cannot identify the struct holding the chains of keys being evaluated")
+	}
+	// shared types: the evaluator, the data model roots, and every module type reachable from them
+	var add func(t types.Type)
+	add = func(t types.Type) {
+		switch u := t.(type) {
+		case *types.Named:
+			if u.Obj().Pkg() == nil || !inModule(u.Obj().Pkg()) {
+				return
+			}
+			if r.shared[u] {
+				return
+			}
+			r.shared[u] = true
+			add(u.Underlying())
+		case *types.Pointer:
+			add(u.Elem())
+		case *types.Slice:
+			add(u.Elem())
+		case *types.Array:
+			add(u.Elem())
+		case *types.Map:
+			add(u.Key())
+			add(u.Elem())
+		case *types.Struct:
+			for i := 0; i < u.NumFields(); i++ {
+				add(u.Field(i).Type())
+			}
+		}
+	}
+	add(r.evaluator)
+	for _, root := range []string{"FeatureFlag", "Segment"} {
+		tn, ok := w.model.Types.Scope().Lookup(root).(*types.TypeName)
+		if !ok {
+			failf("ldmodel.%s not found", root)
+		}
+		add(tn.Type())
+	}
+	if r.shared[r.scope] || r.shared[r.stack] {
+		failf("the per-call scope or stack is reachable from shared data")
+	}
+	w.rolesCache = r
+	return r
+}
+
+// roleType renders a type with the three role structs replaced by their role names.
+func (r *roles) roleType(t types.Type) string {
+	s := typeStr(t)
+	for _, p := range []struct {
+		n    *types.Named
+		role string
+	}{{r.evaluator, "‹evaluator›"}, {r.scope, "‹scope›"}, {r.stack, "‹stack›"}} {
+		s = strings.ReplaceAll(s, p.n.Obj().Pkg().Name()+"."+p.n.Obj().Name(), p.role)
+	}
+	return s
+}
+
+func (r *roles) roleOf(n *types.Named) string {
+	switch n {
+	case r.evaluator:
+		return "‹evaluator›"
+	case r.scope:
+		return "‹scope›"
+	case r.stack:
+		return "‹stack›"
+	}
+	if n.Obj().Exported() {
+		return n.Obj().Pkg().Name() + "." + n.Obj().Name()
+	}
+	return "‹local object›"
+}
+
+// ---------- reachability ----------
+
+// reachableFromEvaluate: module functions reachable from (*‹evaluator›).Evaluate in the CHA call
+// graph (static calls, plus every module method that could be the target of an interface call or
+// of a call through a function value).
 func (w *world) reachableFromEvaluate() []*ssa.Function {
-	root := w.method(w.root.PkgPath, "evaluator", "Evaluate")
+	if w.reachCache != nil {
+		return w.reachCache
+	}
+	r := w.findRoles()
+	root := w.method(w.root.PkgPath, r.evaluator.Obj().Name(), "Evaluate")
 	if root == nil {
-		failf("(*evaluator).Evaluate not found")
+		failf("method Evaluate of the evaluator struct not found")
 	}
 	cg := cha.CallGraph(w.prog)
 	seen := map[*ssa.Function]bool{}
@@ -106,10 +281,11 @@ func (w *world) reachableFromEvaluate() []*ssa.Function {
 		}
 		for _, e := range node.Out {
 			callee := e.Callee.Func
-			if callee.Pkg != nil && inModule(callee.Pkg.Pkg) {
+			switch {
+			case callee.Pkg != nil && inModule(callee.Pkg.Pkg):
 				visit(callee)
-			} else if callee.Pkg == nil && callee.Synthetic != "" {
-				// wrappers / bound methods / instantiations: look through them
+			case callee.Pkg == nil && callee.Synthetic != "":
+				// wrappers / bound methods / instantiations of module functions
 				if o := callee.Origin(); o != nil && o.Pkg != nil && inModule(o.Pkg.Pkg) {
 					visit(callee)
 				} else if callee.Object() != nil && inModule(callee.Object().Pkg()) {
@@ -117,7 +293,6 @@ func (w *world) reachableFromEvaluate() []*ssa.Function {
 				}
 			}
 		}
-		_ = callgraph.Edge{}
 	}
 	visit(root)
 	res := []*ssa.Function{}
@@ -125,198 +300,295 @@ func (w *world) reachableFromEvaluate() []*ssa.Function {
 		res = append(res, f)
 	}
 	sort.Slice(res, func(i, j int) bool { return res[i].String() < res[j].String() })
+	w.reachCache = res
 	return res
 }
 
-// describeAddr walks an address (or slice / map value) back to where it comes from. local=true when
-// the memory was allocated by the function itself (Alloc, MakeSlice, MakeMap, composite literal).
-func describeAddr(v ssa.Value, depth int) (desc string, local bool) {
+// ---------- where a write goes ----------
+
+type target struct {
+	local      bool           // memory allocated by the writing function itself
+	containers []*types.Named // named struct types on the access path, outermost first
+	fieldType  types.Type     // type of the innermost field on the path (nil if none)
+	global     string         // package-level variable at the root, if any
+	root       string         // description of the root when it is not a struct path
+}
+
+func structNamed(t types.Type) *types.Named {
+	if p, ok := t.Underlying().(*types.Pointer); ok {
+		t = p.Elem()
+	}
+	n, _ := t.(*types.Named)
+	return n
+}
+
+func fieldOf(t types.Type, i int) *types.Var {
+	if p, ok := t.Underlying().(*types.Pointer); ok {
+		t = p.Elem()
+	}
+	if st, ok := t.Underlying().(*types.Struct); ok && i < st.NumFields() {
+		return st.Field(i)
+	}
+	return nil
+}
+
+// trace walks an address, slice or map value back to where it comes from.
+func trace(v ssa.Value, depth int) target {
 	if depth > 40 {
-		return "<deep>", false
+		return target{root: "<deep>"}
 	}
 	switch t := v.(type) {
-	case *ssa.Alloc:
-		return "local", true
-	case *ssa.MakeSlice, *ssa.MakeMap, *ssa.MakeChan, *ssa.MakeClosure, *ssa.MakeInterface:
-		return "local", true
+	case *ssa.Alloc, *ssa.MakeSlice, *ssa.MakeMap, *ssa.MakeChan, *ssa.MakeClosure, *ssa.MakeInterface:
+		return target{local: true}
+	case *ssa.Const:
+		return target{local: true}
 	case *ssa.FieldAddr:
-		base, loc := describeAddr(t.X, depth+1)
-		st := structOf(t.X.Type())
-		field := fmt.Sprintf("#%d", t.Field)
-		if st != nil {
-			field = st.Field(t.Field).Name()
+		tg := trace(t.X, depth+1)
+		if n := structNamed(t.X.Type()); n != nil {
+			tg.containers = append(tg.containers, n)
 		}
-		name := namedStructName(t.X.Type())
-		if name != "" {
-			return name + "." + field, loc
+		if f := fieldOf(t.X.Type(), t.Field); f != nil && tg.fieldTypeFrozen() {
+			tg.fieldType = f.Type()
 		}
-		return base + "." + field, loc
+		return tg
 	case *ssa.Field:
-		base, loc := describeAddr(t.X, depth+1)
-		st, _ := t.X.Type().Underlying().(*types.Struct)
-		field := fmt.Sprintf("#%d", t.Field)
-		if st != nil {
-			field = st.Field(t.Field).Name()
-		}
+		tg := trace(t.X, depth+1)
 		if n, ok := t.X.Type().(*types.Named); ok {
-			return n.Obj().Name() + "." + field, loc
+			tg.containers = append(tg.containers, n)
 		}
-		return base + "." + field, loc
+		if st, ok := t.X.Type().Underlying().(*types.Struct); ok && t.Field < st.NumFields() {
+			tg.fieldType = st.Field(t.Field).Type()
+		}
+		return tg
 	case *ssa.IndexAddr:
-		base, loc := describeAddr(t.X, depth+1)
-		return base + "[]", loc
+		return trace(t.X, depth+1)
 	case *ssa.Slice:
-		return describeAddr(t.X, depth+1)
+		return trace(t.X, depth+1)
 	case *ssa.UnOp:
 		if t.Op == token.MUL {
-			// a pointer / slice / map loaded from memory: the thing it points to is not ours even if
-			// the variable holding it is, unless that variable is a local that only ever held local
-			// allocations (the SSA builder already lifts those to registers, so what is left is shared)
-			base, _ := describeAddr(t.X, depth+1)
-			return "*" + base, false
+			// a pointer / slice / map loaded from memory: what it refers to is not the function's
+			// own even if the variable holding it is
+			tg := trace(t.X, depth+1)
+			tg.local = false
+			if len(tg.containers) == 0 && tg.global == "" && tg.root == "" {
+				tg.root = "value loaded from a local variable of type " + typeStr(t.Type())
+			}
+			return tg
 		}
-		return describeAddr(t.X, depth+1)
+		return trace(t.X, depth+1)
 	case *ssa.Parameter:
-		return "(" + typeStr(t.Type()) + ")", false
+		tg := target{}
+		if n := derefNamed(t.Type()); n != nil {
+			if _, isStruct := n.Underlying().(*types.Struct); isStruct {
+				tg.containers = []*types.Named{n}
+				return tg
+			}
+		}
+		tg.root = "parameter of type " + typeStr(t.Type())
+		return tg
 	case *ssa.FreeVar:
-		return "free(" + typeStr(t.Type()) + ")", false
+		tg := target{}
+		if n := derefNamed(t.Type()); n != nil {
+			tg.containers = []*types.Named{n}
+			return tg
+		}
+		tg.root = "captured variable of type " + typeStr(t.Type())
+		return tg
 	case *ssa.Global:
-		return "global " + t.Pkg.Pkg.Name() + "." + t.Name(), false
+		return target{global: t.Pkg.Pkg.Name() + "." + t.Name()}
 	case *ssa.Phi:
-		descs := []string{}
-		allLocal := true
+		res := target{local: true}
 		for _, e := range t.Edges {
 			if e == ssa.Value(t) {
 				continue
 			}
-			d, l := describeAddr(e, depth+1)
-			descs = append(descs, d)
-			allLocal = allLocal && l
+			x := trace(e, depth+1)
+			res.local = res.local && x.local
+			res.containers = append(res.containers, x.containers...)
+			if x.fieldType != nil {
+				res.fieldType = x.fieldType
+			}
+			if x.global != "" {
+				res.global = x.global
+			}
+			if x.root != "" {
+				res.root = x.root
+			}
 		}
-		return strings.Join(sortedSet(descs), "|"), allLocal
+		return res
 	case *ssa.Call:
 		if b, ok := t.Call.Value.(*ssa.Builtin); ok && b.Name() == "append" {
-			return describeAddr(t.Call.Args[0], depth+1)
+			return trace(t.Call.Args[0], depth+1)
 		}
-		return "result of call", false
+		tg := target{}
+		if n := derefNamed(t.Type()); n != nil {
+			tg.containers = []*types.Named{n}
+			return tg
+		}
+		tg.root = "result of a call, of type " + typeStr(t.Type())
+		return tg
 	case *ssa.Extract:
-		return "result of call", false
+		return target{root: "result of a call, of type " + typeStr(t.Type())}
 	case *ssa.ChangeType:
-		return describeAddr(t.X, depth+1)
+		return trace(t.X, depth+1)
 	case *ssa.Convert:
-		return describeAddr(t.X, depth+1)
-	case *ssa.Const:
-		return "const", true
+		return trace(t.X, depth+1)
 	case *ssa.Lookup:
-		return describeAddr(t.X, depth+1)
+		return trace(t.X, depth+1)
 	case *ssa.TypeAssert:
-		return "(" + typeStr(t.Type()) + ")", false
+		tg := target{}
+		if n := derefNamed(t.Type()); n != nil {
+			tg.containers = []*types.Named{n}
+			return tg
+		}
+		tg.root = "type assertion to " + typeStr(t.Type())
+		return tg
 	}
-	return fmt.Sprintf("<%T>", v), false
+	return target{root: fmt.Sprintf("<%T>", v)}
 }
 
-func structOf(t types.Type) *types.Struct {
-	if p, ok := t.Underlying().(*types.Pointer); ok {
-		t = p.Elem()
-	}
-	st, _ := t.Underlying().(*types.Struct)
-	return st
+func (t *target) fieldTypeFrozen() bool { return true }
+
+type write struct {
+	op string
+	tg target
 }
 
-func namedStructName(t types.Type) string {
-	if p, ok := t.Underlying().(*types.Pointer); ok {
-		t = p.Elem()
+// writesOf lists the writes of one function that do not go into memory it allocated itself.
+func writesOf(f *ssa.Function) []write {
+	res := []write{}
+	add := func(op string, v ssa.Value) {
+		if tg := trace(v, 0); !tg.local {
+			res = append(res, write{op, tg})
+		}
 	}
-	if n, ok := t.(*types.Named); ok {
-		return n.Obj().Name()
-	}
-	return ""
-}
-
-// writesOf lists the non-local writes of one function.
-func writesOf(f *ssa.Function) []string {
-	res := []string{}
 	for _, b := range f.Blocks {
 		for _, ins := range b.Instrs {
 			switch t := ins.(type) {
 			case *ssa.Store:
-				if d, local := describeAddr(t.Addr, 0); !local {
-					res = append(res, "store "+d)
-				}
+				add("store", t.Addr)
 			case *ssa.MapUpdate:
-				if d, local := describeAddr(t.Map, 0); !local {
-					res = append(res, "map update "+d)
-				}
+				add("map update", t.Map)
+			case *ssa.Send:
+				res = append(res, write{"channel send", target{root: "channel"}})
+			case *ssa.Go:
+				res = append(res, write{"go statement", target{root: "goroutine"}})
 			case ssa.CallInstruction:
 				if bi, ok := t.Common().Value.(*ssa.Builtin); ok {
 					switch bi.Name() {
 					case "append":
-						if d, local := describeAddr(t.Common().Args[0], 0); !local {
-							if c, isConst := t.Common().Args[0].(*ssa.Const); !isConst || !c.IsNil() {
-								res = append(res, "append "+d)
-							}
+						if c, isConst := t.Common().Args[0].(*ssa.Const); !isConst || !c.IsNil() {
+							add("append", t.Common().Args[0])
 						}
 					case "copy", "delete", "clear":
-						if d, local := describeAddr(t.Common().Args[0], 0); !local {
-							res = append(res, bi.Name()+" "+d)
-						}
+						add(bi.Name(), t.Common().Args[0])
 					}
 				}
-			case *ssa.Send:
-				res = append(res, "channel send")
-			}
-			if _, ok := ins.(*ssa.Go); ok {
-				res = append(res, "go statement")
 			}
 		}
 	}
 	return res
 }
 
+// classify: shared=true when the write may reach memory visible to other evaluations.
+func (r *roles) classify(wr write) (shared bool, desc string) {
+	tg := wr.tg
+	if tg.global != "" {
+		return true, wr.op + " package variable " + tg.global
+	}
+	for _, n := range tg.containers {
+		if r.shared[n] {
+			ft := ""
+			if tg.fieldType != nil {
+				ft = " (field of type " + r.roleType(tg.fieldType) + ")"
+			}
+			return true, wr.op + " into " + r.roleOf(n) + ft
+		}
+	}
+	if len(tg.containers) == 0 {
+		return true, wr.op + " through " + tg.root
+	}
+	inner := tg.containers[len(tg.containers)-1]
+	ft := "?"
+	if tg.fieldType != nil {
+		ft = r.roleType(tg.fieldType)
+	}
+	return false, wr.op + " " + r.roleOf(inner) + " field of type " + ft
+}
+
+func structFieldTypes(r *roles, n *types.Named) []string {
+	st := n.Underlying().(*types.Struct)
+	res := []string{}
+	for i := 0; i < st.NumFields(); i++ {
+		res = append(res, r.roleType(st.Field(i).Type()))
+	}
+	sort.Strings(res)
+	return res
+}
+
 func emitState(w *world, o *out) {
-	o.guard("packageVars", listFallback("packageVars"), func() {
-		pv := []string{}
-		for _, p := range []*types.Package{w.root.Types, w.model.Types, w.internal.Types} {
-			for _, name := range p.Scope().Names() {
-				if v, ok := p.Scope().Lookup(name).(*types.Var); ok {
-					pv = append(pv, p.Name()+"."+name+" : "+typeStr(v.Type()))
+	var r *roles
+	o.guard("evaluatorFieldTypes", listFallback("evaluatorFieldTypes")+"\n"+listFallback("scopeFieldTypes")+"\n"+listFallback("stackFieldTypes"), func() {
+		r = w.findRoles()
+		o.w("def evaluatorFieldTypes : List String := %s\n", leanStrList(structFieldTypes(r, r.evaluator)))
+		o.w("def scopeFieldTypes : List String := %s\n", leanStrList(structFieldTypes(r, r.scope)))
+		o.w("def stackFieldTypes : List String := %s\n", leanStrList(structFieldTypes(r, r.stack)))
+	})
+	o.guard("stackPassing", listFallback("stackPassing"), func() {
+		// every way a function of the evaluation package receives, returns or stores the chains
+		r = w.findRoles()
+		name := r.stack.Obj().Pkg().Name() + "." + r.stack.Obj().Name()
+		kinds := []string{}
+		for obj := range w.decls {
+			if obj.Pkg() != w.root.Types {
+				continue
+			}
+			sig := obj.Type().(*types.Signature)
+			for _, tu := range []*types.Tuple{sig.Params(), sig.Results()} {
+				for i := 0; i < tu.Len(); i++ {
+					if s := typeStr(tu.At(i).Type()); strings.Contains(s, name) {
+						kinds = append(kinds, "parameter or result of type "+r.roleType(tu.At(i).Type()))
+					}
+				}
+			}
+			if rc := sig.Recv(); rc != nil && strings.Contains(typeStr(rc.Type()), name) {
+				kinds = append(kinds, "receiver of type "+r.roleType(rc.Type()))
+			}
+		}
+		for _, tn := range w.root.Types.Scope().Names() {
+			t, ok := w.root.Types.Scope().Lookup(tn).(*types.TypeName)
+			if !ok {
+				continue
+			}
+			if st, ok := t.Type().Underlying().(*types.Struct); ok {
+				for i := 0; i < st.NumFields(); i++ {
+					if strings.Contains(typeStr(st.Field(i).Type()), name) {
+						kinds = append(kinds, "struct field of type "+r.roleType(st.Field(i).Type()))
+					}
 				}
 			}
 		}
-		o.w("def packageVars : List String := %s\n", leanStrList(sortedSet(pv)))
+		o.w("def stackPassing : List String := %s\n", leanStrList(sortedSet(kinds)))
 	})
-	o.guard("stateFields", listFallback("stateFields"), func() {
-		fields := []string{}
-		for _, tn := range []string{"evaluator", "evaluationScope"} {
-			obj, ok := w.root.Types.Scope().Lookup(tn).(*types.TypeName)
-			if !ok {
-				failf("type %s not found", tn)
-			}
-			st, ok := obj.Type().Underlying().(*types.Struct)
-			if !ok {
-				failf("%s is not a struct", tn)
-			}
-			for i := 0; i < st.NumFields(); i++ {
-				fields = append(fields, tn+"."+st.Field(i).Name()+" : "+typeStr(st.Field(i).Type()))
+	o.guard("evalSharedWrites", listFallback("evalSharedWrites")+"\n"+listFallback("evalPrivateWrites"), func() {
+		r = w.findRoles()
+		sharedW, privW := []string{}, []string{}
+		for _, f := range w.reachableFromEvaluate() {
+			for _, wr := range writesOf(f) {
+				if sh, d := r.classify(wr); sh {
+					sharedW = append(sharedW, d)
+				} else {
+					privW = append(privW, d)
+				}
 			}
 		}
-		o.w("def stateFields : List String := %s\n", leanStrList(sortedSet(fields)))
-	})
-	var reach []*ssa.Function
-	o.guard("evalWrites", listFallback("evalWrites"), func() {
-		reach = w.reachableFromEvaluate()
-		writes := []string{}
-		for _, f := range reach {
-			writes = append(writes, writesOf(f)...)
-		}
-		o.w("def evalWrites : List String := %s\n", leanStrListLines(sortedSet(writes)))
+		o.w("def evalSharedWrites : List String := %s\n", leanStrListLines(sortedSet(sharedW)))
+		o.w("def evalPrivateWrites : List String := %s\n", leanStrListLines(sortedSet(privW)))
 	})
 	o.guard("evalDynamicCalls", listFallback("evalDynamicCalls"), func() {
-		if reach == nil {
-			reach = w.reachableFromEvaluate()
-		}
+		r = w.findRoles()
 		calls := []string{}
-		for _, f := range reach {
+		for _, f := range w.reachableFromEvaluate() {
 			for _, b := range f.Blocks {
 				for _, ins := range b.Instrs {
 					ci, ok := ins.(ssa.CallInstruction)
@@ -325,7 +597,12 @@ func emitState(w *world, o *out) {
 					}
 					c := ci.Common()
 					if c.IsInvoke() {
-						calls = append(calls, "invoke "+typeStr(c.Value.Type())+"."+c.Method.Name())
+						iface := "‹unexported interface›"
+						if n, ok := c.Value.Type().(*types.Named); ok && (n.Obj().Exported() || !inModule(n.Obj().Pkg())) {
+							iface = typeStr(n)
+						}
+						sig := c.Method.Type().(*types.Signature)
+						calls = append(calls, "invoke "+iface+"."+methodLabel(c.Method, sig))
 						continue
 					}
 					if c.StaticCallee() != nil {
@@ -335,32 +612,68 @@ func emitState(w *world, o *out) {
 						continue
 					}
 					// a call through a function value: report it when its type is a named function
-					// type (part of the API) or when it is loaded from a field
+					// type (part of the API) or when it is loaded from a struct field or a global
 					if n, ok := c.Value.Type().(*types.Named); ok {
 						calls = append(calls, "call "+typeStr(n))
-					} else if d, local := describeAddr(c.Value, 0); !local && !strings.HasPrefix(d, "(") && !strings.HasPrefix(d, "free(") {
-						// not a plain function-typed parameter or captured variable of the caller
-						calls = append(calls, "call func value "+d)
+					} else if tg := trace(c.Value, 0); !tg.local && (len(tg.containers) > 0 && tg.fieldType != nil || tg.global != "") {
+						calls = append(calls, "call function value held in a field or package variable, of type "+typeStr(c.Value.Type()))
 					}
 				}
 			}
 		}
 		o.w("def evalDynamicCalls : List String := %s\n", leanStrListLines(sortedSet(calls)))
 	})
-	o.guard("evaluatorWrites", listFallback("evaluatorWrites"), func() {
-		res := []string{}
+	o.guard("evaluatorWrites", listFallback("evaluatorWrites")+"\n"+listFallback("globalWrites"), func() {
+		r = w.findRoles()
+		optionIface, _ := w.root.Types.Scope().Lookup("EvaluatorOption").(*types.TypeName)
+		evW, glW := []string{}, []string{}
 		for _, pkg := range []string{w.root.PkgPath, w.model.PkgPath, w.internal.PkgPath} {
 			for _, f := range w.moduleFunctions(pkg) {
-				if f.Synthetic != "" && f.Name() == "init" {
+				if f.Synthetic != "" {
 					continue
 				}
+				who := f.Pkg.Pkg.Name() + "." + calleeNameShort(f)
+				if !ast_IsExportedFunc(f) {
+					who = f.Pkg.Pkg.Name() + ".‹unexported function›"
+				}
+				if rc := f.Signature.Recv(); rc != nil && optionIface != nil {
+					if it, ok := optionIface.Type().Underlying().(*types.Interface); ok && types.Implements(rc.Type(), it) {
+						who = "method " + f.Name() + " of an EvaluatorOption implementation"
+					}
+				}
 				for _, wr := range writesOf(f) {
-					if strings.HasPrefix(wr, "store evaluator.") || strings.Contains(wr, "global ") {
-						res = append(res, f.Pkg.Pkg.Name()+"."+calleeNameShort(f)+": "+wr)
+					if wr.tg.global != "" {
+						glW = append(glW, who+": "+wr.op+" "+wr.tg.global)
+						continue
+					}
+					for _, n := range wr.tg.containers {
+						if n == r.evaluator {
+							ft := "?"
+							if wr.tg.fieldType != nil {
+								ft = r.roleType(wr.tg.fieldType)
+							}
+							evW = append(evW, who+": "+wr.op+" field of type "+ft)
+						}
 					}
 				}
 			}
 		}
-		o.w("def evaluatorWrites : List String := %s\n", leanStrListLines(sortedSet(res)))
+		o.w("def evaluatorWrites : List String := %s\n", leanStrListLines(sortedSet(evW)))
+		o.w("def globalWrites : List String := %s\n", leanStrListLines(sortedSet(glW)))
 	})
+}
+
+func methodLabel(m *types.Func, sig *types.Signature) string {
+	if m.Exported() {
+		return m.Name()
+	}
+	return "‹unexported method› " + types.TypeString(sig, func(p *types.Package) string { return p.Name() })
+}
+
+func ast_IsExportedFunc(f *ssa.Function) bool {
+	if f.Signature.Recv() != nil {
+		n := derefNamed(f.Signature.Recv().Type())
+		return n != nil && n.Obj().Exported() && token.IsExported(f.Name())
+	}
+	return token.IsExported(f.Name()) && f.Parent() == nil
 }
